@@ -25,7 +25,7 @@ func famGenSites(c *Ctx) {
 	if repo == "" {
 		repo = "/repo"
 	}
-	sites, nondet, errs, err := MapRangeExtract(repo)
+	sites, nondet, marshals, errs, err := MapRangeExtract(repo)
 	if err != nil {
 		c.PropFail("C40", "map-range extractor failed: "+err.Error())
 		return
@@ -48,6 +48,19 @@ func famGenSites(c *Ctx) {
 			c.PropFail("C40", fmt.Sprintf("source of nondeterminism in the generator: %s:%d %s %s %s", n.File, n.Line, n.Func, n.Kind, n.Detail))
 		}
 	}
+	for _, m := range marshals {
+		allowed := m.File == "compiler/protogen/protogen.go" &&
+			(m.Func == "run" && m.Callee == "proto.Marshal" || m.Func == "Options.New" && m.Callee == "proto.Marshal" ||
+				m.Func == "GeneratedFile.metaFile" && m.Callee == "prototext.Marshal")
+		if m.Deterministic {
+			c.Stat("marshal_deterministic")
+		} else if allowed {
+			c.Stat("marshal_allowed")
+		} else {
+			c.PropFail("C40", fmt.Sprintf("message serialised without Deterministic: true (map fields are written in iteration order): %s:%d %s %s",
+				m.File, m.Line, m.Func, m.Callee))
+		}
+	}
 	// the committed table
 	exe, err := os.Executable()
 	if err != nil {
@@ -59,7 +72,7 @@ func famGenSites(c *Ctx) {
 		c.Stat("table_not_found")
 		return
 	}
-	if want := MapRangeCoq(sites, nondet); string(have) != want {
+	if want := MapRangeCoq(sites, nondet, marshals); string(have) != want {
 		diff := "length"
 		hl, wl := strings.Split(string(have), "\n"), strings.Split(want, "\n")
 		for i := 0; i < len(hl) && i < len(wl); i++ {
